@@ -21,12 +21,19 @@ JAC_NOISE_GAIN = 1e11
 # one case = one command-line combination (index mod 128) with fresh Rmax / R0 / geometry parameters and `points`
 # sample points; 77 of the 128 combinations are offered by the library.
 POINTS = {"quick": 100, "thorough": 1000}
-CASES = {"quick": 12800, "thorough": 30720}    # 100 / 240 parameter draws per combination
+CASES = {"quick": 12800, "thorough": 46080}    # 100 / 360 parameter draws per combination
+ASAN_CASES = {"quick": 384, "thorough": 3840}
 
 
 def stages(tier):
-    args = {"points": POINTS[tier], "noise_gain": NOISE_GAIN, "jac_noise_gain": JAC_NOISE_GAIN}
-    return [Stage("manufactured", "p19_manufactured", "plain", {tier: CASES[tier]}, args=args, timeout_per_case=120.0)]
+    # points per case are chosen by the driver from its --tier (100 quick / 1000 thorough, = POINTS) so that a replay
+    # reproduces the case whatever --tier the replaying command line has
+    args = {"noise_gain": NOISE_GAIN, "jac_noise_gain": JAC_NOISE_GAIN}
+    # the same driver under ASan/UBSan on a smaller range (table look-ups of the Culham geometry, pow/sqrt domains)
+    san = dict(args, points=100)
+    return [Stage("manufactured", "p19_manufactured", "plain", {tier: CASES[tier]}, args=args, timeout_per_case=120.0),
+            Stage("manufactured-asan", "p19_manufactured", "asan", {tier: ASAN_CASES[tier]}, args=san,
+                  timeout_per_case=120.0, offset=1000000)]
 
 
 THRESHOLDS = {
@@ -59,7 +66,7 @@ MIN_NONTRIVIAL = {"quick": 68, "thorough": 68}
 
 RULE = ("case i drives command-line combination i mod 128 (geometry 0-3, problem 0-3, alpha_coeff 0-3, beta_coeff 0-1) "
         "with Rmax in {1,1.3,2}, R0 log-uniform in [1e-5,0.3] Rmax, geometry parameters uniform in kappa [0,0.5], delta "
-        "[0,0.3], epsilon [0.1,0.5], e [1,2] (15% library defaults), alpha_jump uniform; per case 100 (quick) / 1000 "
+        "[0,min(0.3,0.4(1-kappa))] (mapping regular), epsilon [0.1,0.5], e [1,2] (15% library defaults), alpha_jump uniform; per case 100 (quick) / 1000 "
         "(thorough) points of (R0,Rmax)x[0,2pi): 50% nodes of a 40x64 polar lattice, 30% random (r log-uniform from "
         "max(R0,1e-3 Rmax)), 10% within 1e-9..1e-2 of R0 or Rmax, 10% on/near the axes theta = k pi/2; signature = "
         "dynamic class name of the selected source term (68 classes exist: 66 non-Culham + 2 Culham; the property text "
@@ -84,7 +91,7 @@ TECHNIQUE = ("runtime monitor with a numerical-differentiation oracle: the objec
              "Jacobian / source term / boundary / beta values compared with 8th-order finite differences of their own "
              "mapping / exact solution; dynamic types compared with an independent table")
 LEVEL_TEXT = ("sampled executions judged by an oracle: all 128 command-line combinations (77 offered, 68 source-term "
-              "classes) x 100 (quick) / 240 (thorough) parameter draws x 100 / 1000 points; scaled differences against "
+              "classes) x 100 (quick) / 360 (thorough) parameter draws x 100 / 1000 points; scaled differences against "
               "thresholds >= 100x above the worst value observed on consistent classes")
 LEVEL_NOTE = ("not a symbolic proof: differences below 1e-6 of the term magnitude (1e-8 for the Jacobian) plus 1000x the "
               "measured differentiation uncertainty are invisible; points/parameters are sampled; trusts libm and the "
